@@ -16,7 +16,7 @@ THEOREMS = ['WV.C07.corr_linear', 'WV.C07.padIdx_linear', 'WV.C07.afb1dOne_symme
             'WV.C07L.DWTForward_linear', 'WV.C07L.DWTForward_raises_by_shape', 'WV.C07L.DWTForward_slice',
             'WV.C07S.genT_total', 'WV.C07S.genT_none', 'WV.C07S.gen2d_rep', 'WV.C07S.afb1dAtrousOne_some_pos', 'WV.C07S.SWTForward_rep',
             'WV.C07S.SWTForward_linear', 'WV.C07S.SWTForward_raises_by_shape', 'WV.C07S.SWTForward_slice',
-            'WV.C07I.lin2_idwt', 'WV.C07I.idwt2_linear', 'WV.C07I.stepS2_linear', 'WV.C07I.waverec2_linear', 'WV.C07I.DWTInverse_linear', 'WV.C07I.DWTInverse_per_linear', 'WV.C07V.sfb1dCh_shape', 'WV.C07V.DWT1DInverse_linear',
+            'WV.C07I.lin2_idwt', 'WV.C07I.idwt2_linear', 'WV.C07I.stepS2_linear', 'WV.C07I.waverec2_linear', 'WV.C07I.DWTInverse_linear', 'WV.C07I.DWTInverse_per_linear', 'WV.C07V.sfb1dCh_shape', 'WV.C07V.DWT1DInverse_linear', 'WV.C07V.AFB1D_forward_single_eq', 'WV.C07V.DWT1DForward_linear',
             'WV.C07T.lin_spec_colfilter', 'WV.C07T.lin_spec_coldfilt', 'WV.C07T.extendEven_lin', 'WV.C07T.extendMult4_lin', 'WV.C07T.q2c_lin',
             'WV.C07T.refLevel1_lin', 'WV.C07T.refLevel2_lin', 'WV.C07T.refLoop_lin', 'WV.C07T.refForward_linear', 'WV.C07T.DTCWTForward_linear',
             'WV.C07U.lin_spec_colifilt', 'WV.C07U.c2q_lin', 'WV.C07U.iadd_lin', 'WV.C07U.cropToHighs_lin', 'WV.C07U.refInvLevel1_lin', 'WV.C07U.refInvLevel2_lin',
